@@ -246,9 +246,52 @@ def analyse_unindexed(tier):
     return res
 
 
+def analyse_mixed(tier):
+    """a file with reaction indices joined by one API-built reaction without index: the file indices keep their
+    meaning, the unindexed reaction is targeted by no key"""
+    res = {"case": "mixed-indexed-unindexed", "ok": [], "unknown": [], "viol": [], "errors": [], "notes": [], "samples": [], "solver_s": 0.0, "programs": 0, "functions": []}
+    try:
+        files = [{"name": "net.kida", "content": KIDA_TEXT}]
+        kw = {"filelist": "net.kida", "fileformats": "kida", "elements": ["H", "C"], "pseudo_elements": ["Photon", "CR"]}
+        add = [{"op": "exec", "code": "net.add_reaction(Reaction(['C2', 'H'], ['CH', 'C'], alpha=3.3e-11, beta=0.0, gamma=0.0, reaction_type=ReactionType(100)))\n"}]
+        idxs = [r["idx"] for r in KIDA_LINES] + [-1]
+        plain = proj.render("mixed-plain", {"files": files, "network": kw, "ops": add, "targets": [proj.TARGETS["dense"]]})
+        if not plain.ok:
+            res["errors"].append(f"render failed: {plain.meta.get('error')}")
+            return res
+        rp, _ = _terms(plain, "cvode_dense", res)
+        if len(rp.kout) != len(idxs):
+            res["unknown"].append(("mixed", f"{len(rp.kout)} reactions, expected {len(idxs)}"))
+            return res
+        s = z3.Solver()
+        s.add(inv_axioms())
+        for mname, mod in {"file-index": {12: "5.0e-11*Av", 15: "zeta"}, "position-like": {1: "7.0e-10", 5: "2.0*zeta"}, "shared": {14: "Av*2.0"}}.items():
+            api = proj.render(f"mixed-{mname}", {"files": files, "network": dict(kw, rate_modifier={str(k): v for k, v in mod.items()}), "ops": add, "targets": [proj.TARGETS["dense"]]})
+            if not api.ok or not api.target_ok("cvode_dense"):
+                res["notes"].append(f"mixed:{mname}: refused: {str(api.meta.get('error'))[-160:]}")
+                continue
+            ra, _ = _terms(api, "cvode_dense", res)
+            for i, idx in enumerate(idxs):
+                exp = cexpr.to_z3(mod[idx]) if idx in mod else rp.kout[i]
+                nm = f"mixed:{mname}:k[{i}]"
+                r_ = str(s.check(R(ra.kout[i]) != R(exp)))
+                XC.sample(s, [R(ra.kout[i]) != R(exp)], r_, nm)
+                if r_ == "unsat":
+                    res["ok"].append(nm)
+                elif r_ == "sat":
+                    res["viol"].append({"key": nm, "what": f"file with reaction indices plus one unindexed API reaction, modifier set {mod}: reaction {i} (file index {idx}) {'is not replaced by its modifier' if idx in mod else 'does not keep its own rate'}: emitted {z3.simplify(R(ra.kout[i]))}"[:360], "replay": {"modifier": mod, "file_indices": idxs}})
+                else:
+                    res["unknown"].append((nm, r_))
+    except Exception as e:
+        res["errors"].append(f"{type(e).__name__}: {e}\n{traceback.format_exc()[-1200:]}")
+    return res
+
+
 def _work_inner(a):
     if a[0] == "unindexed":
         return analyse_unindexed(a[2])
+    if a[0] == "mixed":
+        return analyse_mixed(a[2])
     return analyse(*a)
 
 
@@ -264,7 +307,7 @@ def _work(a):
 def main(pid, tier):
     chk = Check("C13", tier)
     proj.ensure_venv()
-    work = [("rate", n, tier) for n in RATE_SETS] + [("ode", n, tier) for n in ODE_SETS] + [("unindexed", "", tier)]
+    work = [("rate", n, tier) for n in RATE_SETS] + [("ode", n, tier) for n in ODE_SETS] + [("unindexed", "", tier), ("mixed", "", tier)]
     ctx = mp.get_context("fork")
     with cf.ProcessPoolExecutor(max_workers=12, mp_context=ctx) as ex:
         results = list(ex.map(_work, work))
